@@ -55,6 +55,8 @@ def peerNo (s : String) : Nat :=
 inductive IOp where
   | u (k : Key) (now : Nat)
   | c (now : Nat)
+  /-- the harness moves the tuple's last use `delta` ms into the past (time passing without use) -/
+  | a (k : Key) (delta : Nat)
 
 def parseOp (s : String) : Option IOp :=
   match s.splitOn "|" with
@@ -63,6 +65,10 @@ def parseOp (s : String) : Option IOp :=
     | some t, some now => some (.u ⟨src, t⟩ now)
     | _, _ => none
   | ["c", now] => now.toNat?.map IOp.c
+  | ["a", src, t, delta] =>
+    match t.toNat?, delta.toNat? with
+    | some t, some delta => some (.a ⟨src, t⟩ delta)
+    | _, _ => none
   | _ => none
 
 def parseDump (s : String) : Option (List (Key × Nat)) :=
@@ -85,33 +91,46 @@ def dumpGet (d : List (Key × Nat)) (k : Key) : Option Nat := (d.find? (·.1 = k
 def window : Nat := Cfg.code.window
 
 def handleIdk (auto : Bool) (ops : List IOp) (outs : List (Option Nat × List (Key × Nat))) : String :=
-  let keys := ops.filterMap (fun | .u k _ => some k | .c _ => none)
+  let keys := ops.filterMap (fun | .u k _ => some k | .c _ => none | .a k _ => some k)
   -- Spec: two updates never hand out one id
-  let us := (ops.zip outs).filterMap (fun | (.u k now, (some q, _)) => some (k, now, q) | _ => none)
-  let rec clash : List (Key × Nat × Nat) → Option (Key × Nat)
+  let idx := (List.range ops.length).zip (ops.zip outs)
+  let us := idx.filterMap (fun | (i, .u k now, (some q, _)) => some (i, k, now, q) | _ => none)
+  -- time the harness let pass without use of `k` between script positions i and j
+  let agedBetween (k : Key) (i j : Nat) : Nat :=
+    (idx.filterMap (fun | (p, .a k' d, _) => if k' = k ∧ i < p ∧ p < j then some d else none | _ => none)).foldl (· + ·) 0
+  let rec clash : List (Nat × Key × Nat × Nat) → Option (Key × Nat × Nat)
     | [] => none
-    | (k, _, q) :: rest =>
-      match rest.find? (fun e => e.1 = k ∧ e.2.2 = q) with
-      | some e => some (k, e.2.1)
+    | (i, k, _, q) :: rest =>
+      match rest.find? (fun e => e.2.1 = k ∧ e.2.2.2 = q) with
+      | some e => some (k, e.2.2.1, agedBetween k i e.1)
       | none => clash rest
   match clash us with
-  | some (k, now) => s!"specfail idkeeper-same-number-creation-time-{timeClass now k.time} source={k.source} time={k.time}"
+  | some (k, now, idle) =>
+    -- a counter that was not used for longer than the retention window is forgotten (by design of `clean`):
+    -- a class of its own
+    if window ≤ idle ∧ k.time ≠ 0 then
+      s!"specfail idkeeper-same-number-tuple-unused-for-longer-than-24h source={k.source} time={k.time} idle={idle}"
+    else s!"specfail idkeeper-same-number-creation-time-{timeClass now k.time} source={k.source} time={k.time}"
   | none =>
     -- correspondence: the model step by step
-    let rec go (m : Keeper) : List IOp → List (Option Nat × List (Key × Nat)) → Nat → Option String
+    let rec go (m : Keeper) (u : Used) : List IOp → List (Option Nat × List (Key × Nat)) → Nat → Option String
       | [], [], _ => none
       | .u k now :: ops, (q, d) :: outs, i =>
         let (m1, s) := m.update k
-        let m2 := if auto then m1.clean window now else m1
+        let u1 := u.set k now
+        let m2 := if auto then m1.cleanU window u1 now else m1
         if q != some s then some s!"op{i} number model={s} impl={q}"
         else if keys.any (fun k' => m2 k' != dumpGet d k') then some s!"op{i} map-after-update"
-        else go m2 ops outs (i + 1)
+        else go m2 u1 ops outs (i + 1)
       | .c now :: ops, (_, d) :: outs, i =>
-        let m2 := m.clean window now
+        let m2 := m.cleanU window u now
         if keys.any (fun k' => m2 k' != dumpGet d k') then some s!"op{i} map-after-clean"
-        else go m2 ops outs (i + 1)
+        else go m2 u ops outs (i + 1)
+      | .a k delta :: ops, (_, d) :: outs, i =>
+        if keys.any (fun k' => m k' != dumpGet d k') then some s!"op{i} map-after-ageing"
+        else go m (u.set k (u k - delta)) ops outs (i + 1)
       | _, _, _ => some "length"
-    match go Keeper.empty ops outs 0 with
+    match go Keeper.empty (fun _ => 0) ops outs 0 with
     | some d => s!"diff idk {d}"
     | none => "ok"
 
